@@ -967,6 +967,7 @@ package astits
 //@   ensures [C06,C07,C20] new: result != nil && fresh(result) && result.pid == pid && result.programMap == programMap && len(result.q) == 0 && cap(result.q) == 0 && allocated(result.q)
 
 //@ func (*packetPool).addUnlocked
+//@   opt nopre
 //@   requires b != nil && p != nil && b.b != nil && (p.Header.HasAdaptationField ==> p.AdaptationField != nil)
 //@   requires has(b.b, u32(p.Header.PID)) ==> b.b[u32(p.Header.PID)] != nil && 0 <= len(b.b[u32(p.Header.PID)].q) && len(b.b[u32(p.Header.PID)].q) <= cap(b.b[u32(p.Header.PID)].q) && cap(b.b[u32(p.Header.PID)].q) < 0x1000000000000 && allocated(b.b[u32(p.Header.PID)].q) && (len(b.b[u32(p.Header.PID)].q) > 0 ==> b.b[u32(p.Header.PID)].q[len(b.b[u32(p.Header.PID)].q) - 1] != nil)
 //@   opt noframe
@@ -1015,6 +1016,8 @@ package astits
 //@ func parseData
 //@   opt sweep:C03
 //@   opt noframe
+//@   opt nopre
+//@   modifies calls(prs)
 //@   requires 0 < len(ps) && len(ps) < 0x10000 && allocated(ps) && forall(k, 0, len(ps), pktOK(ps[k]))
 //@   requires pm != nil && pm.p != nil
 //@   loop 0 invariant [C03,C02,C09,C19] sum: rangeindex == iter - 1 && iter <= len(ps) && 0 <= l && l <= iter * 0x10000
@@ -1037,27 +1040,27 @@ package astits
 //@ extern (io.Reader).Read
 //@   modifies rdPos(recv), rdFail(recv), elems(p)
 //@   ensures [C08,C18,C20,C03] doc: 0 <= n && n <= len(p) && rdPos(recv) == old(rdPos(recv)) + n && rdPos(recv) >= old(rdPos(recv))
-//@   ensures [C08,C18,C20,C03] fail: (err != nil && err != io_EOF && err != io_ErrUnexpectedEOF) == (rdFail(recv) != old(rdFail(recv))) && rdFail(recv) >= old(rdFail(recv))
+//@   ensures [C08,C18,C20,C03] fail: (err != nil && err != io_EOF && err != io_ErrUnexpectedEOF) == (rdFail(recv) != old(rdFail(recv))) && rdFail(recv) >= old(rdFail(recv)) && (rdFail(recv) != old(rdFail(recv)) ==> !is(err, io_EOF))
 //@ extern io.ReadFull
 //@   modifies rdPos(r), rdFail(r), rdEnded(r), elems(buf)
 //@   ensures [C08,C18,C20,C03] doc: 0 <= n && n <= len(buf) && rdPos(r) == old(rdPos(r)) + n && rdPos(r) >= old(rdPos(r)) && (err == nil ==> n == len(buf))
 //@   ensures [C08,C18,C20,C03] eof: (err == io_EOF || err == io_ErrUnexpectedEOF ==> rdEnded(r) != 0) && (err == nil ==> rdEnded(r) == old(rdEnded(r))) && (rdEnded(r) != old(rdEnded(r)) ==> err == io_EOF || err == io_ErrUnexpectedEOF) && (err == io_EOF ==> n == 0) && (err == io_ErrUnexpectedEOF ==> 0 < n && n < len(buf))
-//@   ensures [C08,C18,C20,C03] fail: (err != nil && err != io_EOF && err != io_ErrUnexpectedEOF) == (rdFail(r) != old(rdFail(r))) && rdFail(r) >= old(rdFail(r))
+//@   ensures [C08,C18,C20,C03] fail: (err != nil && err != io_EOF && err != io_ErrUnexpectedEOF) == (rdFail(r) != old(rdFail(r))) && rdFail(r) >= old(rdFail(r)) && (rdFail(r) != old(rdFail(r)) ==> !is(err, io_EOF))
 //@ extern io.ReadAtLeast
 //@   modifies rdPos(r), rdFail(r), elems(buf)
 //@   ensures [C08,C18,C20,C03] doc: 0 <= n && n <= len(buf) && rdPos(r) == old(rdPos(r)) + n && rdPos(r) >= old(rdPos(r)) && (err == nil ==> n >= min)
-//@   ensures [C08,C18,C20,C03] fail: (err != nil && err != io_EOF && err != io_ErrUnexpectedEOF) == (rdFail(r) != old(rdFail(r))) && rdFail(r) >= old(rdFail(r))
+//@   ensures [C08,C18,C20,C03] fail: (err != nil && err != io_EOF && err != io_ErrUnexpectedEOF) == (rdFail(r) != old(rdFail(r))) && rdFail(r) >= old(rdFail(r)) && (rdFail(r) != old(rdFail(r)) ==> !is(err, io_EOF))
 // bufio.Reader.Peek consumes nothing.
 //@ extern (*bufio.Reader).Peek
 //@   modifies rdFail(b), rdEnded(b)
 //@   ensures [C08,C18,C20,C03] doc: 0 <= len(result0) && len(result0) <= n && (result1 == nil ==> len(result0) == n) && allocated(result0)
-//@   ensures [C08,C18,C20,C03] fail: (result1 != nil && result1 != io_EOF) == (rdFail(b) != old(rdFail(b))) && rdFail(b) >= old(rdFail(b))
+//@   ensures [C08,C18,C20,C03] fail: (result1 != nil && result1 != io_EOF) == (rdFail(b) != old(rdFail(b))) && rdFail(b) >= old(rdFail(b)) && (rdFail(b) != old(rdFail(b)) ==> !is(result1, io_EOF))
 //@   ensures [C08,C18,C20,C03] eof: (result1 == io_EOF ==> rdEnded(b) != 0) && (result1 == nil ==> rdEnded(b) == old(rdEnded(b)))
 // io.Seeker: seeking to offset 0 from the start reports 0 and puts the reader back at its first byte.
 //@ extern (io.Seeker).Seek
 //@   modifies rdPos(recv), rdFail(recv)
 //@   ensures [C08,C18,C20,C03] doc: result1 == nil && offset == 0 && whence == 0 ==> result0 == 0 && rdPos(recv) == 0
-//@   ensures [C08,C18,C20,C03] fail: (result1 != nil) == (rdFail(recv) != old(rdFail(recv))) && rdFail(recv) >= old(rdFail(recv))
+//@   ensures [C08,C18,C20,C03] fail: (result1 != nil) == (rdFail(recv) != old(rdFail(recv))) && rdFail(recv) >= old(rdFail(recv)) && (result1 != nil ==> !is(result1, io_EOF)) && (rdPos(recv) == 0 || rdPos(recv) == old(rdPos(recv)))
 
 //@ func rewind
 //@   opt sweep:C03
@@ -1067,6 +1070,8 @@ package astits
 //@   ensures [C08] untouched: n == -1 && err == nil ==> rdPos(r) == old(rdPos(r)) && rdFail(r) == old(rdFail(r))
 //@   ensures [C18] surfaced: (err != nil) == (rdFail(r) != old(rdFail(r)))
 //@   ensures [C18] mono: rdFail(r) >= old(rdFail(r))
+//@   ensures [C03,C18] failnoteof: err != nil ==> !is(err, io_EOF)
+//@   ensures [C03,C08] pos: rdPos(r) == 0 || rdPos(r) == old(rdPos(r))
 
 // peek fills b with the first len(b) bytes of the stream whatever the reader's fragmentation: either nothing is
 // consumed (bufio) or exactly len(b) bytes are - unless the reader failed or the stream ended first.
@@ -1079,7 +1084,9 @@ package astits
 //@   ensures [C18] surfaced: rdFail(r) != old(rdFail(r)) ==> err != nil
 //@   ensures [C18] mono: rdFail(r) >= old(rdFail(r))
 //@   ensures [C03] eos: err != nil && rdFail(r) == old(rdFail(r)) ==> err == io_EOF
+//@   ensures [C03,C18] failnoteof: rdFail(r) != old(rdFail(r)) ==> !is(err, io_EOF)
 //@   ensures [C03] progress: shouldRewind && err == nil ==> rdPos(r) > old(rdPos(r))
+//@   ensures [C03,C08] posmono: rdPos(r) >= old(rdPos(r))
 //@   ensures [C03] ended: err == nil && (!shouldRewind || rdPos(r) == old(rdPos(r)) + len(b)) ==> rdEnded(r) == old(rdEnded(r))
 
 // autoDetectPacketSize: on success the reader is left on a packet boundary (at its first byte, or two whole
@@ -1095,11 +1102,15 @@ package astits
 //@   ensures [C18] surfaced: rdFail(r) != old(rdFail(r)) ==> err != nil && err != ErrPacketMustStartWithASyncByte
 //@   ensures [C18] mono: rdFail(r) >= old(rdFail(r))
 //@   ensures [C03] eos: err != nil && rdFail(r) == old(rdFail(r)) && rdPos(r) == 0 && rdEnded(r) != 0 && old(rdEnded(r)) == 0 ==> is(err, io_EOF)
+//@   ensures [C03,C18] failnoteof: rdFail(r) != old(rdFail(r)) ==> !is(err, io_EOF)
+//@   ensures [C03,C08] posmono: rdPos(r) >= 0
 
 //@ func newPacketBuffer
 //@   opt sweep:C03
 //@   requires rdPos(r) == 0 && (packetSize == 0 || (188 <= packetSize && packetSize < 0x10000))
 //@   ensures [C03,C08] ok: err == nil ==> pbOK(pb) && pb.r == r
+//@   ensures [C03,C08] posmono: rdPos(r) >= 0
+//@   ensures [C03,C18] failnoteof: rdFail(r) != old(rdFail(r)) ==> !is(err, io_EOF)
 //@   ensures [C03] eos: err != nil && rdFail(r) == old(rdFail(r)) && rdPos(r) == 0 && rdEnded(r) != 0 && old(rdEnded(r)) == 0 ==> is(err, io_EOF)
 //@   modifies rdPos(r), rdFail(r), rdEnded(r)
 //@   ensures [C08] size: err == nil ==> pb != nil && fresh(pb) && pb.r == r && pb.s == s && pb.packetSize == ite(packetSize == 0, pb.packetSize, packetSize) && (packetSize == 0 ==> 188 <= pb.packetSize && pb.packetSize <= 192) && len(pb.packetReadBuffer) == 0 && pb.packetReadBuffer == nil
@@ -1113,14 +1124,18 @@ package astits
 //@   opt sweep:C03
 //@   opt noframe
 //@   opt noloopframe
+//@   modifies pb.packetReadBuffer, elems(pb.packetReadBuffer), rdPos(pb.r), rdFail(pb.r), rdEnded(pb.r), calls(pb.s)
 //@   requires pb != nil && 188 <= pb.packetSize && pb.packetSize < 0x10000 && 0 <= len(pb.packetReadBuffer) && len(pb.packetReadBuffer) <= cap(pb.packetReadBuffer) && allocated(pb.packetReadBuffer)
 //@   loop 0 invariant [C08,C18,C03,C19] buf: pb != nil && len(pb.packetReadBuffer) == pb.packetSize && pb.packetSize == old(pb.packetSize) && 188 <= pb.packetSize && pb.packetSize < 0x10000 && len(pb.packetReadBuffer) <= cap(pb.packetReadBuffer) && allocated(pb.packetReadBuffer) && pb.r == old(pb.r) && pb.s == old(pb.s) && rdFail(pb.r) == old(rdFail(pb.r)) && rdPos(pb.r) >= old(rdPos(pb.r)) && (iter > 0 ==> rdPos(pb.r) > old(rdPos(pb.r))) && (iter == 0 ==> p == nil)
+//@   loop 0 invariant [C08,C03,C19] wf: p != nil && err == nil ==> (p.Header.HasAdaptationField ==> p.AdaptationField != nil)
 //@   loop 0 assert [C08] whole: rdPos(pb.r) == pre(rdPos(pb.r)) + pb.packetSize
 //@   at call io.ReadFull#0 assert [C08] whole: len($buf) == pb.packetSize
 //@   ensures [C18] surfaced: rdFail(pb.r) != old(rdFail(pb.r)) ==> err != nil
-//@   ensures [C08,C19] packet: err == nil ==> p != nil
+//@   ensures [C08,C19,C03] packet: err == nil ==> p != nil && (p.Header.HasAdaptationField ==> p.AdaptationField != nil)
 //@   ensures [C03] eos: err != nil && rdFail(pb.r) == old(rdFail(pb.r)) && rdPos(pb.r) == old(rdPos(pb.r)) ==> err == ErrNoMorePackets
 //@   ensures [C03,C08] keeps: pbOK(pb) && pb.r == old(pb.r)
+//@   ensures [C18,C03] mono: rdFail(pb.r) >= old(rdFail(pb.r)) && rdPos(pb.r) >= old(rdPos(pb.r))
+//@   ensures [C18,C03] eofclean: err == ErrNoMorePackets ==> rdFail(pb.r) == old(rdFail(pb.r))
 
 //@ func (*Demuxer).Rewind
 //@   requires dmx != nil
@@ -1529,18 +1544,22 @@ package astits
 
 //@ extern (context.Context).Err
 //@   opt pure
+//@   ensures [C03,C18,C08,C19] done: (result == nil) == (ctxDone(recv) == 0)
 
 // NextPacket keeps the packet buffer usable (never a buffer whose size was not determined), surfaces reader
 // failures, and answers ErrNoMorePackets - not some other error - when the stream has ended and the call consumed
 // nothing: a caller that keeps calling either makes progress through the input or is told the stream is over.
 //@ func (*Demuxer).NextPacket
 //@   opt noframe
+//@   modifies dmx.packetBuffer, rdPos(dmx.r), rdFail(dmx.r), rdEnded(dmx.r), calls(dmx.optPacketSkipper)
 //@   requires dmx != nil && (dmx.packetBuffer == nil ==> rdPos(dmx.r) == 0 && rdEnded(dmx.r) == 0) && (dmx.packetBuffer != nil ==> pbOK(dmx.packetBuffer) && dmx.packetBuffer.r == dmx.r)
 //@   requires dmx.optPacketSize == 0 || (188 <= dmx.optPacketSize && dmx.optPacketSize < 0x10000)
 //@   ensures [C03,C08] pbinv: dmx.packetBuffer != nil ==> pbOK(dmx.packetBuffer) && dmx.packetBuffer.r == dmx.r
 //@   ensures [C18] surfaced: rdFail(dmx.r) != old(rdFail(dmx.r)) ==> err != nil
-//@   ensures [C03] eos: err != nil && retof("(context.Context).Err", 0) == nil && rdEnded(dmx.r) != 0 && rdPos(dmx.r) == old(rdPos(dmx.r)) && rdFail(dmx.r) == old(rdFail(dmx.r)) ==> err == ErrNoMorePackets
-//@   ensures [C19,C08] packet: err == nil ==> p != nil
+//@   ensures [C03] eos: err != nil && ctxDone(dmx.ctx) == 0 && rdEnded(dmx.r) != 0 && rdPos(dmx.r) == old(rdPos(dmx.r)) && rdFail(dmx.r) == old(rdFail(dmx.r)) ==> err == ErrNoMorePackets
+//@   ensures [C19,C08,C03] packet: err == nil ==> p != nil && (p.Header.HasAdaptationField ==> p.AdaptationField != nil) && dmx.packetBuffer != nil
+//@   ensures [C18,C03] eofclean: err == ErrNoMorePackets ==> rdFail(dmx.r) == old(rdFail(dmx.r))
+//@   ensures [C03,C18] keeps: dmx.r == old(dmx.r) && dmx.packetPool == old(dmx.packetPool) && dmx.programMap == old(dmx.programMap) && dmx.optPacketsParser == old(dmx.optPacketsParser) && dmx.optPacketSize == old(dmx.optPacketSize) && rdFail(dmx.r) >= old(rdFail(dmx.r))
 
 // ---------------------------------------------------------------------------
 // Stream list maintenance (C17: the PMT is regenerated after every change of the stream list)
@@ -1575,3 +1594,29 @@ package astits
 //@   ensures [C17] unknown: forall(k, 0, old(len(m.pmt.ElementaryStreams)), old(m.pmt.ElementaryStreams[k].ElementaryPID) != pid) ==> result == ErrPIDNotFound && len(m.pmt.ElementaryStreams) == old(len(m.pmt.ElementaryStreams)) && m.pmtUpdated == old(m.pmtUpdated)
 //@   ensures [C17] removed: result == nil ==> m.pmtUpdated && len(m.pmt.ElementaryStreams) == old(len(m.pmt.ElementaryStreams)) - 1 && !has(m.esContexts, u32(pid))
 //@   ensures [C17] either: result == nil || result == ErrPIDNotFound
+
+// ---------------------------------------------------------------------------
+// demuxer.go: NextData
+
+// Not under contract: the end-of-stream dump of the pool and the program map bookkeeping (assumed to touch only the
+// pool's map, the data buffer and the program map).
+//@ extern (*packetPool).dumpUnlocked
+//@   modifies mapof(b.b)
+//@ extern (*Demuxer).updateData
+//@   modifies dmx.dataBuffer, mapof(dmx.programMap.p)
+
+// NextData: buffered data first, in order, without touching the reader; a reader failure is reported; the
+// packet groups go to parseData with the demuxer's own parser and program map. The preconditions of
+// addUnlocked and parseData (the pool-wide invariant) are assumed at these call sites, not proved.
+//@ func (*Demuxer).NextData
+//@   opt noframe
+//@   opt noloopframe
+//@   requires dmx != nil && dmx.packetPool != nil && dmx.packetPool.b != nil && dmx.programMap != nil && dmx.programMap.p != nil
+//@   requires (dmx.packetBuffer == nil ==> rdPos(dmx.r) == 0 && rdEnded(dmx.r) == 0) && (dmx.packetBuffer != nil ==> pbOK(dmx.packetBuffer) && dmx.packetBuffer.r == dmx.r) && (dmx.optPacketSize == 0 || (188 <= dmx.optPacketSize && dmx.optPacketSize < 0x10000))
+//@   requires 0 <= len(dmx.dataBuffer) && len(dmx.dataBuffer) <= cap(dmx.dataBuffer) && allocated(dmx.dataBuffer)
+//@   loop 0 invariant [C18,C19,C03,C02,C07] stable: dmx != nil && dmx.packetPool != nil && dmx.packetPool.b != nil && dmx.programMap != nil && dmx.programMap.p != nil && dmx.r == old(dmx.r) && dmx.packetPool == old(dmx.packetPool) && dmx.programMap == old(dmx.programMap) && dmx.optPacketsParser == old(dmx.optPacketsParser) && dmx.optPacketSize == old(dmx.optPacketSize) && rdFail(dmx.r) == old(rdFail(dmx.r))
+//@   loop 0 invariant [C19,C03,C02,C07] buffer: (dmx.packetBuffer == nil ==> rdPos(dmx.r) == 0 && rdEnded(dmx.r) == 0) && (dmx.packetBuffer != nil ==> pbOK(dmx.packetBuffer) && dmx.packetBuffer.r == dmx.r)
+//@   loop 1 invariant [C18,C19,C03,C02,C07] stable: dmx != nil && dmx.packetPool != nil && dmx.packetPool.b != nil && dmx.programMap != nil && dmx.programMap.p != nil && dmx.packetPool == old(dmx.packetPool) && dmx.programMap == old(dmx.programMap) && dmx.optPacketsParser == old(dmx.optPacketsParser) && dmx.r == old(dmx.r) && rdFail(dmx.r) == old(rdFail(dmx.r))
+//@   at call parseData#* assert [C19] parser: $prs == dmx.optPacketsParser && $pm == dmx.programMap
+//@   ensures [C02,C07] buffered: old(len(dmx.dataBuffer)) > 0 ==> d == old(dmx.dataBuffer[0]) && err == nil && len(dmx.dataBuffer) == old(len(dmx.dataBuffer)) - 1 && rdPos(dmx.r) == old(rdPos(dmx.r)) && dmx.packetPool == old(dmx.packetPool)
+//@   ensures [C18] surfaced: rdFail(dmx.r) != old(rdFail(dmx.r)) ==> err != nil
